@@ -22,6 +22,25 @@ func reorgGapHistory() []op {
 	}
 }
 
+// trackerLowHistory is the hand-minimised history of the confirmed finding FPTrackerLow:
+//
+//	A0 is mined in b1. The pool then fills up completely (4 pending: A1 B0 C0 D0, 4 queued: A3 B2
+//	C2 D2) with C0 the cheapest remote transaction. A one-block reorg to a sibling b1' that contains
+//	C0 but not A0: reset() rebuilds the nonce tracker from the new state (C: 1), re-injects A0 into
+//	the full pool, add() evicts the cheapest remote transaction, which is C0 — still sitting in
+//	pending because demoteUnexecutables has not run yet — and removeTx lowers C's virtual nonce to
+//	0, below the state nonce 1. Nothing corrects it in this run (C has no pending list any more):
+//	pool.Nonce(C) = 0 until the next reset run.
+func trackerLowHistory() []op {
+	return []op{
+		{K: "addRemote", Txs: []txRef{ref(0, 0, 2, 0)}},
+		{K: "head", Head: &headSpec{Blocks: 1, Mine: [nAccts]mineSel{{1, 0}, {}, {}, {}}, Fund: -1}},
+		{K: "addBatch", Txs: []txRef{ref(2, 0, 0, 0), ref(0, 1, 1, 0), ref(1, 0, 1, 0), ref(3, 0, 1, 0)}},
+		{K: "addBatch", Txs: []txRef{ref(2, 2, 1, 0), ref(0, 3, 1, 0), ref(1, 2, 1, 0), ref(3, 2, 1, 0)}},
+		{K: "head", Head: &headSpec{Depth: 1, Blocks: 1, Mine: [nAccts]mineSel{{}, {}, {1, 0}, {}}, Fund: -1}},
+	}
+}
+
 // TestC19_Regress_KnownFindings replays the minimal history of every listed known finding once per
 // run through the normal oracle, so that the driver prints its KNOWN-FINDING line (or, once the
 // defect is repaired and the entry removed, simply passes).
@@ -34,6 +53,17 @@ func TestC19_Regress_KnownFindings(t *testing.T) {
 	}
 	if !c.labels["known_reorg_gap_hit"] {
 		stats.Note("regress: the reorg re-injection history no longer leaves a hole in the pending list")
+	}
+	c.labels["nontrivial"] = true
+	c.finish()
+
+	c = newSeqCase(t, part, false)
+	c.e.excludeGap = false
+	for _, o := range trackerLowHistory() {
+		c.step(o)
+	}
+	if !c.labels["known_tracker_low_hit"] {
+		stats.Note("regress: the full-pool re-injection history no longer pushes the nonce tracker below the state nonce")
 	}
 	c.labels["nontrivial"] = true
 	c.finish()
